@@ -37,6 +37,9 @@
 (*                  denied is not sent; a mutation / subscription request     *)
 (*                  with any denied root field is not sent (both modes: the   *)
 (*                  legacy authorizer has AuthorizePreFetch for exactly that) *)
+(*  FailClosed      a coordinate for which the authorizer returned an ERROR   *)
+(*                  is never delivered with a value (NoDeniedValue with the   *)
+(*                  failing family counted as denied)                         *)
 (*                                                                            *)
 (* Code map: resolve/field_authorization.go (authorizePreFetch, decide),      *)
 (* resolvable.go (walkFields/authorizeField, walkUnreachedFields,             *)
@@ -158,7 +161,7 @@ DenialReported(pos, basePos, Deny, errs, explain, pathless) ==
 \* one subgraph request: [kind |-> "query"|"mutation"|"subscription", roots |-> <<family>>]
 ReqAllowed(r, Deny, mode) ==
   LET denied == {i \in DOMAIN r.roots : r.roots[i] \in Deny} IN
-  /\ (mode = "batch" /\ Len(r.roots) > 0) => denied # DOMAIN r.roots
+  /\ (mode \in {"batch", "both"} /\ Len(r.roots) > 0) => denied # DOMAIN r.roots
   /\ (r.kind # "query") => denied = {}
 PrefetchRule(reqs, Deny, mode) == \A i \in DOMAIN reqs : ReqAllowed(reqs[i], Deny, mode)
 
@@ -216,7 +219,7 @@ ExactData(shape, base, Deny, data) == AzSame(ExecData(shape, base, Deny), data)
 \* reference decision of the loader: is the request sent?
 SentByModel(r, Deny, mode) ==
   LET nDenied == Cardinality({i \in DOMAIN r.roots : r.roots[i] \in Deny}) IN
-  IF mode = "batch"
+  IF mode \in {"batch", "both"}
   THEN IF r.kind # "query" THEN nDenied = 0 ELSE ~(Len(r.roots) > 0 /\ nDenied = Len(r.roots))
   ELSE IF r.kind = "query" THEN TRUE ELSE nDenied = 0
 =============================================================================
